@@ -27,6 +27,8 @@ class GreenletTimeout(BaseException):
 
 
 BASE_EXC_KINDS = {"kbint": KeyboardInterrupt, "sysexit": SystemExit, "greenlet": GreenletTimeout}
+# the same interrupts arriving in sendall() *after* the bytes went out (the request is on its way, a reply will come)
+BASE_EXC_DELIVERED = {"kbint_delivered": KeyboardInterrupt, "greenlet_delivered": GreenletTimeout}
 
 # fault kinds applicable to each socket-call type (ordinary failures)
 KINDS = {
@@ -56,6 +58,8 @@ REPLY_LINE_VARIANTS = {
 def make_exc(kind):
     if kind in BASE_EXC_KINDS:
         return BASE_EXC_KINDS[kind]("injected " + kind)
+    if kind in BASE_EXC_DELIVERED:
+        return BASE_EXC_DELIVERED[kind]("injected " + kind)
     if kind == "gaierror":
         return _real_socket.gaierror(-2, "Name or service not known (injected)")
     if kind == "oserror":
@@ -228,7 +232,8 @@ class FakeNet:
             if kind is not None:
                 # reply faults are only meaningful on sendall; ordinary kinds only on their type
                 k0 = kind[0] if isinstance(kind, tuple) else kind
-                if k0 in BASE_EXC_KINDS or k0 in KINDS.get(typ, ()) or (typ == T_SENDALL and k0 in ("rline", "trunc")):
+                if k0 in BASE_EXC_KINDS or k0 in KINDS.get(typ, ()) or (
+                        typ == T_SENDALL and (k0 in ("rline", "trunc") or k0 in BASE_EXC_DELIVERED)):
                     self.fired.append((call, idx, typ, kind))
                     if sock is not None:
                         sock.faulted = True
@@ -422,6 +427,8 @@ class FakeSocket:
             self.faulted = True
             raise net.health_exc("reset")
         if self.peer_closed or (self.session is not None and self.session.closed):
+            if k == "timeout_delivered" or k in BASE_EXC_DELIVERED:
+                raise make_exc(k)
             return None     # kernel accepts the bytes; the peer is gone
         replies = self.session.feed(bytes(data), net.ctx.call)
         segs = [[bytearray(r), tag] for r, tag, cmd in replies]
@@ -455,7 +462,7 @@ class FakeSocket:
                 self.stall_after = True
         if self.session.closed:
             self.peer_closed = True
-        if k == "timeout_delivered":
+        if k == "timeout_delivered" or k in BASE_EXC_DELIVERED:
             raise make_exc(k)
         return None
 
